@@ -28,7 +28,9 @@ NodeClauses(s, r, nd, reach, isFirst) ==
       NBad(c, ok) == IF ok THEN {} ELSE {c \o "@" \o n} IN
   CASE nd.type = "J" ->
         IF n \notin reach
-        THEN IF Want(s, "C09") THEN NBad("C09.isolated_zero", IsZero(N(r.dem[n])) /\ IsZero(N(r.press[n])) /\ IsZero(N(r.leak[n]))) ELSE {}
+        THEN (IF Want(s, "C09") THEN NBad("C09.isolated_zero", IsZero(N(r.dem[n])) /\ IsZero(N(r.press[n])) /\ IsZero(N(r.leak[n]))) ELSE {})
+             \* a junction that is cut off has no pressure: its leak discharges nothing
+             \cup (IF Want(s, "C08") THEN NBad("C08.leak_isolated_zero", IsZero(N(r.leak[n]))) ELSE {})
         ELSE (IF Want(s, "C01") THEN NBad("C01.junction_balance", JunctionBalance(s, r, n)) ELSE {})
              \cup (IF s.mode = "DD"
                    THEN (IF Want(s, "C01") THEN NBad("C01.dd_demand", DDDemand(s, r, nd)) ELSE {})
